@@ -200,6 +200,9 @@ def collect_variants(n, seed):
     # a table does not fit the PDB limits as it is and has to be renamed on its way to a PDB file
     strat = st.fixed_dictionaries({"file": st.sampled_from(sorted(tables)), "ext": st.sampled_from(["pdb", "cif"]),
                                    "mods": st.lists(mod, min_size=1, max_size=5), "long_chains": st.booleans(),
+                                   # numbering that restarts inside a chain (two fragments under one chain id, as modelling
+                                   # and MD pipelines write them): two different residues then share chain, number and code
+                                   "restart_numbering": st.sampled_from([False, False, True]),
                                    # mmCIF only: optional atom_site items left out (minimal files of modelling tools)
                                    "drop_items": st.lists(st.sampled_from(["label_alt_id", "pdbx_PDB_ins_code", "pdbx_formal_charge", "type_symbol", "occupancy", "B_iso_or_equiv"]),
                                                           max_size=5, unique=True)})
@@ -228,6 +231,23 @@ def collect_variants(n, seed):
                     a["resname"] = resname
         for k, a in enumerate(atoms):
             a["serial"] = k + 1
+        if c.get("restart_numbering"):
+            seen, half = [], {}
+            for a in atoms:
+                k = (a["chain"], a["resseq"], a["icode"])
+                if k not in seen:
+                    seen.append(k)
+            by_chain = {}
+            for k in seen:
+                by_chain.setdefault(k[0], []).append(k)
+            for ch, ks in by_chain.items():
+                cut = len(ks) // 2
+                if cut >= 1 and len(ks) - cut >= 1:
+                    shift = ks[cut][1] - ks[0][1]
+                    for k in ks[cut:]:
+                        half[k] = shift
+            for a in atoms:
+                a["resseq"] -= half.get((a["chain"], a["resseq"], a["icode"]), 0)
         if c.get("long_chains") and c["ext"] == "cif":
             for a in atoms:
                 a["chain"] = a["chain"] + a["chain"].lower() + "x"
